@@ -177,6 +177,8 @@ type Config struct {
 	StopAtFirst   bool
 	Params        map[string]int
 	Solver        string
+	ConcStores    bool
+	StubConst     map[string]uint64
 }
 
 type caseReq struct {
